@@ -177,6 +177,21 @@ pub open spec fn a1_value(s: Seq<u8>, nl: int) -> (u32, Option<u32>) {
 /// shape within the range where u32 arithmetic cannot overflow: <= 9 digits, <= 6 letters
 pub open spec fn a1_small(s: Seq<u8>, nl: int) -> bool { a1_shape(s, nl) && s.len() - nl <= 9 && nl <= 6 }
 
+/// `acc + digit * pow` and `pow * base` both fit in a u32
+pub open spec fn digit_fits(acc: u32, digit: u32, pow: u32, base: u32) -> bool {
+    acc + digit * pow <= u32::MAX && pow * base <= u32::MAX
+}
+//@@ fn src/xlsx/mod.rs add_digit props=C06 ret=r
+//@@ sig
+    ensures
+        //# C06.add_digit_exact
+        digit_fits(acc, digit, *old(pow), base) ==> r == Ok::<u32, XlsxError>((acc + digit * *old(pow)) as u32) && *final(pow) == *old(pow) * base,
+        //# C06.add_digit_overflow_rejected
+        !digit_fits(acc, digit, *old(pow), base) ==> r is Err,
+//@@ closure 0
+    -> (res: Option<u32>) ensures res == (if acc + d <= u32::MAX { Some((acc + d) as u32) } else { None })
+//@@ end
+
 //@@ fn src/xlsx/mod.rs get_row_and_optional_column props=C01,C15,C17 entry ret=r
 //@@ sig
     ensures
@@ -187,10 +202,18 @@ pub open spec fn a1_small(s: Seq<u8>, nl: int) -> bool { a1_shape(s, nl) && s.le
         forall|nl: int| #[trigger] a1_small(range@, nl) && dec10(range@.subrange(nl, range@.len() as int)) == 0 ==> r is Err,
         //# C01,C15,C17.a1_malformed_rejected
         (forall|nl: int| !#[trigger] a1_shape(range@, nl)) ==> r is Err,
+        //# C06,C01.a1_never_wraps
+        // (any length: an accepted reference denotes exactly the returned coordinates, as mathematical integers)
+        forall|nl: int| #[trigger] a1_shape(range@, nl) && r is Ok ==>
+            r->Ok_0.0 as int == dec10(range@.subrange(nl, range@.len() as int)) - 1
+            && match r->Ok_0.1 { Some(c) => nl > 0 && c as int == b26(range@.subrange(0, nl)) - 1, None => nl == 0 },
 //@@ before /for c in /
     let ghost mut nd: int = 0;
     let ghost s = range@;
     let ghost n = range@.len() as int;
+    let ghost small = exists|nl: int| a1_small(range@, nl);
+    let ghost nl0 = choose|nl: int| a1_small(range@, nl);
+    proof { lemma_pow10_vals(); lemma_pow26_vals(); }
     proof { assert(tail(s, 0) =~= Seq::<u8>::empty()); assert(mid(s, 0, 0) =~= Seq::<u8>::empty()); }
 //@@ loop 0 it
         invariant
@@ -198,6 +221,9 @@ pub open spec fn a1_small(s: Seq<u8>, nl: int) -> bool { a1_shape(s, nl) && s.le
             it.seq().len() == n,
             forall|i: int| 0 <= i < n ==> *(#[trigger] it.seq()[i]) == s[n - 1 - i],
             0 <= nd <= it.index@ <= n,
+            small == (exists|nl: int| a1_small(s, nl)),
+            small ==> a1_small(s, nl0) && nd <= n - nl0 && (!readrow ==> n - nd == nl0),
+            row < pow10(nd as nat),
             readrow ==> nd == it.index@,
             !readrow ==> nd < it.index@,
             all_digits(tail(s, nd)),
@@ -219,8 +245,9 @@ pub open spec fn a1_small(s: Seq<u8>, nl: int) -> bool { a1_shape(s, nl) && s.le
                     assert(forall|nl: int| #[trigger] a1_shape(s, nl) ==> (nl <= n - nd - 1 ==> is_digit(s.subrange(nl, n)[n - nd - 1 - nl])));
                 }
             }
-//@@ before /row \+= /
+//@@ before /row = add_digit/
                     proof {
+                        assert(pow10((nd + 1) as nat) == 10 * pow10(nd as nat));
                         lemma_dec10_prepend(c, tail(s, k));
                         lemma_dec10_bound(tail(s, k));
                         assert(all_digits(tail(s, k + 1))) by {
@@ -228,10 +255,18 @@ pub open spec fn a1_small(s: Seq<u8>, nl: int) -> bool { a1_shape(s, nl) && s.le
                                 if i > 0 { assert(tail(s, k + 1)[i] == tail(s, k)[i - 1]); }
                             }
                         }
+                        lemma_dec10_bound(tail(s, k + 1));
+                        if small {
+                            // this digit lies in the digit part of the (unique) split: at most 9 digits in all, nothing overflows
+                            assert(n - 1 - k >= nl0) by { if n - 1 - k < nl0 { assert(is_letter(s.subrange(0, nl0)[n - 1 - k])); } }
+                            assert(nd + 1 <= 9);
+                            lemma_pow_mono(nd as nat, 8); lemma_pow_mono((nd + 1) as nat, 9); lemma_pow10_vals();
+                            assert(digit_fits(row, (c - 0x30) as u32, pow, 10));
+                        }
                     }
-//@@ after /pow \*= [^;]*;/#0of3
+//@@ after /row = add_digit\([^;]*;/
                     proof { nd = nd + 1; assert(mid(s, k + 1, nd) =~= Seq::<u8>::empty()); }
-//@@ before /col \+= /#0of2
+//@@ before /col = add_digit/#0of2
                 proof {
                     if nd == k { assert(mid(s, k, nd) =~= Seq::<u8>::empty()); }
                     lemma_b26_prepend(c, mid(s, k, nd));
@@ -239,9 +274,18 @@ pub open spec fn a1_small(s: Seq<u8>, nl: int) -> bool { a1_shape(s, nl) && s.le
                         assert forall|i: int| 0 <= i < k + 1 - nd implies is_letter(#[trigger] mid(s, k + 1, nd)[i]) by {
                             if i > 0 { assert(mid(s, k + 1, nd)[i] == mid(s, k, nd)[i - 1]); }
                         }
+                    }
+                    assert(pow26((k - nd + 1) as nat) == 26 * pow26((k - nd) as nat));
+                    if small {
+                        // at most 6 letters: this letter and those seen so far all lie left of the split, nothing overflows
+                        assert(n - nd == nl0);
+                        assert(k - nd + 1 <= nl0 <= 6);
+                        lemma_pow_mono((k - nd) as nat, 5); lemma_pow_mono((k - nd + 1) as nat, 6); lemma_pow26_vals();
+                        lemma_b26_bound(mid(s, k + 1, nd));
+                        assert(digit_fits(col, letter_val(c) as u32, pow, 26));
                     }
                 }
-//@@ before /col \+= /#1of2
+//@@ before /col = add_digit/#1of2
                 proof {
                     if nd == k { assert(mid(s, k, nd) =~= Seq::<u8>::empty()); }
                     lemma_b26_prepend(c, mid(s, k, nd));
@@ -249,6 +293,15 @@ pub open spec fn a1_small(s: Seq<u8>, nl: int) -> bool { a1_shape(s, nl) && s.le
                         assert forall|i: int| 0 <= i < k + 1 - nd implies is_letter(#[trigger] mid(s, k + 1, nd)[i]) by {
                             if i > 0 { assert(mid(s, k + 1, nd)[i] == mid(s, k, nd)[i - 1]); }
                         }
+                    }
+                    assert(pow26((k - nd + 1) as nat) == 26 * pow26((k - nd) as nat));
+                    if small {
+                        // at most 6 letters: this letter and those seen so far all lie left of the split, nothing overflows
+                        assert(n - nd == nl0);
+                        assert(k - nd + 1 <= nl0 <= 6);
+                        lemma_pow_mono((k - nd) as nat, 5); lemma_pow_mono((k - nd + 1) as nat, 6); lemma_pow26_vals();
+                        lemma_b26_bound(mid(s, k + 1, nd));
+                        assert(digit_fits(col, letter_val(c) as u32, pow, 26));
                     }
                 }
 //@@ after /if readrow \{/#1of3
@@ -258,6 +311,7 @@ pub open spec fn a1_small(s: Seq<u8>, nl: int) -> bool { a1_shape(s, nl) && s.le
                             if nl > n - k { assert(is_letter(s.subrange(0, nl)[n - k])); assert(is_digit(tail(s, k)[0])); }
                         }
                         assert(tail(s, k) =~= s.subrange(n - k, n));
+                        if small { assert(a1_shape(s, nl0)); assert(nl0 == n - k); }
                     }
 //@@ after /if readrow \{/#2of3
                     proof {
@@ -266,6 +320,7 @@ pub open spec fn a1_small(s: Seq<u8>, nl: int) -> bool { a1_shape(s, nl) && s.le
                             if nl > n - k { assert(is_letter(s.subrange(0, nl)[n - k])); assert(is_digit(tail(s, k)[0])); }
                         }
                         assert(tail(s, k) =~= s.subrange(n - k, n));
+                        if small { assert(a1_shape(s, nl0)); assert(nl0 == n - k); }
                     }
 //@@ before /let row = row/
     proof {
@@ -335,7 +390,7 @@ pub open spec fn all_upper(s: Seq<u8>) -> bool { forall|i: int| 0 <= i < s.len()
         num < 16384 ==> r is Ok && all_upper(r->Ok_0@) && b26(r->Ok_0@) == num + 1 && 1 <= r->Ok_0@.len() <= 3,
 //@@ before /while num > 0/
     let ghost n0 = num as nat;
-    proof { lemma_pow26_vals(); }
+    proof { lemma_pow26_vals(); assert(col@.len() == 0); assert(pow26(0) == 1); assert(b26_rev(col@) == 0); assert(num * pow26(col@.len()) == num); }
 //@@ loop 0
         invariant
             n0 == num * pow26(col@.len()) + b26_rev(col@),
